@@ -74,7 +74,7 @@ CHECKS = {
     ),
     "C07": dict(
         technique="Lean 4 proof (transaction programs as an inductive type; run of a failed block restores files, registry and undo stack exactly, for every program, nesting depth and fuel) + correspondence of generated programs on a real Butler + fault injection at every SQL / file boundary of the additive and removal operations with a snapshot-equality oracle",
-        text="rollback_exact, effect_all (every program run from any state either commits files/registry extensions that are exactly its own puts or, when it fails, restores the state it started from, with caught inner failures at any depth), failed_block_restores and txn_state_restored (the datastore transaction stack is the same after any block, failed or not) are proved in Lean 4 for every program and every fuel; old_code_leaks / new_code_restores_witness keep the repaired defect C07-a as a kernel-checked regression witness. The model is compared with Butler.transaction() programs (nesting <= 3, caught / uncaught failures) on a real repository; put, put-in-block, ingest(copy, move), import_, transfer_from, pruneDatasets(purge) and removeRuns are run once per SQL / filesystem boundary with a fault injected there and the registry dump, records table and recursive root listing are compared before/after.",
+        text="rollback_exact, effect_all (every program run from any state either commits files/registry extensions that are exactly its own puts or, when it fails, restores the state it started from, with caught inner failures at any depth), failed_block_restores and txn_state_restored (the datastore transaction stack is the same after any block, failed or not) are proved in Lean 4 for every program and every fuel; old_code_leaks / new_code_restores_witness keep the repaired defect C07-a as a kernel-checked regression witness. A second model (TxnCache) covers registry rows behind read-through caches and pruneDatasets inside blocks: Cache.coherent_all (the cached view never differs from the database, for every program), Cache.failed_block_registry_restored (rows, datasets and the cached view are as before a failed block), Cache.files_filter_all / failed_block_files (a block never adds artifacts and removes only what it prunes), Cache.failed_block_files_restored_partial (exact restoration for blocks without pruneDatasets) and the refutation witness Cache.prune_in_failed_block_loses_artifact (known finding C07-c); old_code_stale_cache is the regression witness of repaired defect C07-d. The models are compared with Butler.transaction() programs (nesting <= 3, caught / uncaught failures raised as Exception, BaseException, KeyboardInterrupt, SystemExit or by a refused re-put; inserts of dimension records / dataset types / runs read back through the cached interfaces; pruneDatasets inside blocks) on a real repository; put, put-in-block, ingest(copy, move), import_, transfer_from, pruneDatasets(purge) and removeRuns are run once per SQL / filesystem boundary with a fault injected there and the registry dump, records table and recursive root listing are compared before/after.",
         note="Partial: the Lean model covers the transaction/undo-log state machine; the fault enumeration over real operations is an exhaustive-per-boundary correspondence, not a theorem about SQLite or POSIX. Trusted: Lean kernel; harness and injector; SQLite transaction/SAVEPOINT semantics. Faults that the code swallows by design (ignore_errors=True in Datastore.trash/emptyTrash), after which the removal returns normally, are outside the property's 'removal that fails' clause and are reported as observations.",
         design="DESIGN.md §5 C07",
     ),
